@@ -42,7 +42,9 @@ def check_options():
 
     if options.args().parser_test:
         # only parse and print
-        exprs = list(nodeio.parse_smtlib(open(options.args().infile).read()))
+        exprs = list(
+            nodeio.parse_smtlib(
+                open(options.args().infile, newline='').read()))
         print(nodeio.write_smtlib(sys.stdout, exprs))
         sys.exit(0)
 
@@ -118,7 +120,7 @@ def ddsmt_main():
 
         # parse the input
         start_time = time.time()
-        with open(options.args().infile, 'r') as infile:
+        with open(options.args().infile, 'r', newline='') as infile:
             exprs = list(nodeio.parse_smtlib(infile.read()))
             nexprs = nodes.count_exprs(exprs)
 
